@@ -126,33 +126,9 @@ def run(ctx):
     okd = any('URLItemSource(' in s for s in srcs.values())
     ck.expect(okd, 'C03-D3', 'wpull.application.builder:Builder._build_pipelines', 'download pipeline fed by URLItemSource',
               'download pipeline source changed: %s' % srcs)
-    rl = repo.func(base.qual + '.release')
-    ups = [c for c in U.calls(rl.node) if dotted(c.func) == 'update']
-    okrel = False
-    for c in ups:
-        if c.args and norm_text(c.args[0]) == 'QueuedURL':
-            # chain: update(QueuedURL).values({status: todo}).where(status == in_progress)
-            pm = U.parents(rl.node)
-            chain = [c]
-            cur = c
-            while True:
-                par = pm.get(id(cur))
-                if isinstance(par, ast.Attribute):
-                    call = pm.get(id(par))
-                    if isinstance(call, ast.Call):
-                        chain.append(call)
-                        cur = call
-                        continue
-                break
-            vals = [x for x in chain if U.attr_name(x) == 'values']
-            wh = [x for x in chain if U.attr_name(x) == 'where']
-            if len(vals) == 1 and len(wh) == 1:
-                vt = norm_text(vals[0].args[0]) if vals[0].args else ''
-                wt = norm_text(wh[0].args[0]) if wh[0].args else ''
-                okrel = vt == '{QueuedURL.status: Status.todo.value}' and wt in (
-                    'QueuedURL.status == Status.in_progress.value', 'Status.in_progress.value == QueuedURL.status') and len(wh[0].args) == 1
-    ck.expect(okrel, 'C03-D3', rl.qual, 'UPDATE queued_urls SET status=todo WHERE status=in_progress',
-              'release() rewrites rows other than exactly the in-progress ones', rl.loc())
+    from . import c14
+    from .common import RemapCtx
+    c14.d2_release(RemapCtx(ctx, {'C14-D2': 'C03-D3'}))
 
     # ------------------------------------------------------------------ D4
     it = repo.func('wpull.application.tasks.database:InputURLTask.process')
